@@ -88,7 +88,23 @@ Bug 1 - two cooperating sites. The change consists of TWO edits in different fun
 Bug 2 - an analogue of a bug that real users have reported against Go mock generators (mockery v1/v2/v3, moq, gomock/mockgen, counterfeiter, testify) or against tools built on go/packages and go/types. Recall what such reports looked like - import paths whose last element is not the package name (gopkg.in/yaml.v3, .../v2 major-version suffixes, dashes or dots in directory names, go-xyz), vendored or replaced modules, nested modules and go.work, dot imports and blank imports and renamed imports in the source file, cgo or assembly files in the package, files excluded by GOOS/GOARCH suffix or build tags, test-only declarations, `internal` packages, type aliases under the gotypesalias setting, generic constraints with methods or embedded constraints, embedded interfaces from other packages with unexported methods, interfaces that embed `error` or `fmt.Stringer` or `comparable`, function-typed or channel-typed parameters of named types, named results shadowing packages, Windows-style or very long paths, config files with tabs / BOM / CRLF / duplicate keys / anchors, YAML booleans like `yes`/`on`, numbers where strings are expected, and so on - and re-introduce an analogue of one into this code base at a place where this property depends on it. Say in README.md which kind of report inspired it.
 
 Both bugs must read like a refactor, clean-up or small optimisation that a reviewer would wave through, must leave the build and the existing suite green, and must need a specific input, configuration, sequence or interleaving to show. The source files most relevant to this property are: {anchors} (the bug itself may live elsewhere, e.g. in a helper those files call)."""
+GUIDANCE11A = """Ten earlier rounds have produced some 400 bugs for these properties. This round asks you for ONE bug of a special kind (budget: about 25 minutes).
+
+A fault, a hostile environment or an unusual usage sequence at a particular point. Choose whichever fits this property:
+  - for properties about the tool: the bug shows only when something goes wrong or is unusual at ONE specific moment of a run - an I/O error on one of several files (a directory that is not writable, a file that cannot be read, a full or read-only file system, a path component that is a file, a file that vanishes or appears between two steps, a permission bit, a very long path), an interrupted or partial read/write, a process started with an unusual umask / stdin closed / stdout a closed pipe / HOME unset / a signal arriving, a second instance of the tool running at the same moment on the same tree, a dependency (git, go toolchain, template server) answering slowly, with an error, or with unexpected but legal output. The unchanged tool must behave correctly in that situation and your change must break it only there.
+  - for properties about the generated mocks at run time: the bug shows only under an unusual but legal *usage sequence* - the mock used before/after the constructor's cleanup ran, a zero-value mock not made by the constructor, a mock copied by value, expectations set twice or removed (Unset) or marked Maybe/Times(0)/Once and then exceeded, the same mock shared by parallel subtests, a Func field swapped while calls are in flight, Calls() results retained across resets, panics inside user callbacks (Run/RunAndReturn/Func) followed by further use of the mock, callbacks that call back into the mock or block, very many calls (growth), nil receivers.
+
+The change must read like a refactor, clean-up or small optimisation that a reviewer would wave through, must leave the build and the existing suite green, and must need that specific situation to show. Your demo must bound its own waiting (e.g. `timeout 60 ...`). The source files most relevant to this property are: {anchors} (the bug itself may live elsewhere, e.g. in a helper those files call)."""
+GUIDANCE11B = """Ten earlier rounds have produced some 400 bugs for these properties. This round asks you for ONE bug (budget: about 25 minutes): the adversary's choice, second edition.
+
+Assume the property is guarded by a strong automated harness that has already survived ten rounds of seeded bugs: it generates thousands of random source packages, configurations and call sequences, compares results with reference models, compiles and runs the generated code under the race detector, injects faults at every documented pipeline stage, writes each setting at every configuration level, and has learned from earlier adversaries to vary the things that look irrelevant. Before writing any code, list FIVE candidate bugs in README.md; for each say in one line why such a harness would or would not catch it; then implement the one you believe it is LEAST likely to catch, and say what blind spot you are betting on (for example: something that is tedious to generate, something whose correct behaviour is hard to model so the harness probably does not assert it, a quantity the harness probably keeps small, a combination of three things, a legal input that looks like a generator bug so the harness probably avoids it, behaviour that only shows in what is NOT written or NOT printed, a difference visible only to a downstream consumer of the output). A real user must still be able to run into it, and it must clearly violate the property as stated.
+
+The change must read like a refactor, clean-up or small optimisation that a reviewer would wave through, must leave the build and the existing suite green, and must need a specific input, configuration, sequence or interleaving to show. The source files most relevant to this property are: {anchors} (the bug itself may live elsewhere, e.g. in a helper those files call)."""
 suffix = sys.argv[1]
+if suffix.startswith("11"):
+    a = T.index("## Additional guidance for this round")
+    b = T.index("## Environment facts")
+    T = T[:a] + "## Additional guidance for this round\n\n{guidance5}\n\n" + T[b:]
 if suffix.startswith("10"):
     a = T.index("## Additional guidance for this round")
     b = T.index("## Environment facts")
@@ -122,7 +138,9 @@ for pid in (sys.argv[2:] or sorted(props)):
         if suffix.startswith("6"):   # the families not offered to this property in round 5
             fam = [(k * 7 + 3) % 20, (k * 7 + 8) % 20, (k * 7 + 13) % 20, (k * 7 + 18) % 20]
         extra["guidance5"] = GUIDANCE5.format(assigned="\n".join("  - " + MENU[f] for f in fam), anchors=', '.join(p['anchors']['files']))
-    if suffix.startswith("10"):
+    if suffix.startswith("11"):
+        extra["guidance5"] = (GUIDANCE11A if int(pid[1:]) % 2 else GUIDANCE11B).format(anchors=', '.join(p['anchors']['files']))
+    elif suffix.startswith("10"):
         extra["guidance5"] = GUIDANCE10.format(anchors=', '.join(p['anchors']['files']))
     elif suffix.startswith("9"):
         extra["guidance5"] = GUIDANCE9.format(anchors=', '.join(p['anchors']['files']))
@@ -135,6 +153,6 @@ for pid in (sys.argv[2:] or sorted(props)):
         fam = [(k * 7 + 1) % 20, (k * 7 + 6) % 20, (k * 7 + 12) % 20, (k * 7 + 17) % 20]
         extra["guidance5"] = GUIDANCE7.format(assigned="\n".join("  - " + MENU[f] for f in fam), anchors=', '.join(p['anchors']['files']))
     open('/tmp/mut%s_prompt_%s.txt' % (suffix, pid), 'w').write(T.format(**extra, 
-        n=2, wt='/tmp/wt%s/%s' % (suffix, pid), out='/tmp/mut%s' % suffix, pid=pid, title=p['title'], statement=p['statement'],
+        n=(1 if suffix.startswith('11') else 2), wt='/tmp/wt%s/%s' % (suffix, pid), out='/tmp/mut%s' % suffix, pid=pid, title=p['title'], statement=p['statement'],
         quant=p['quantifier']['text'], anchors=', '.join(p['anchors']['files'])))
 print('ok')
